@@ -54,6 +54,9 @@ func (prop) Rule() string {
 
 const C = boson.ChunkSize
 
+// pyrTrials: how often one `pyr` op submits its pyramid (see runner.pyr)
+const pyrTrials = 12
+
 // ---------------------------------------------------------------- generator
 
 type gen struct {
@@ -224,6 +227,17 @@ func (g *gen) file(leaves int, lastLen int) (string, []pent, []string) {
 	return "f", es, append([]string{"f"}, names...)
 }
 
+// altPos: a position below n to alter, never one of the span bytes 3..7 (an altered entry that a
+// changed GetChunkHashes lets through must not carry a span of 2^24.. bytes: the joiner would loop
+// span/C times, or for ever above 2^57 — see notes/C06.md)
+func (g *gen) altPos(n int) int {
+	p := g.r.Intn(n)
+	if p >= 3 && p < 8 {
+		p = g.r.Intn(3)
+	}
+	return p
+}
+
 func (g *gen) pyramidCase(multi bool) {
 	r := g.r
 	leaves := 1
@@ -261,7 +275,7 @@ func (g *gen) pyramidCase(multi bool) {
 		case 3: // altered data
 			for i := range o {
 				if o[i].k == "#"+victim {
-					o[i].v = fmt.Sprintf("@%s^%d:%d", victim, r.Intn(8+last), 1<<uint(r.Intn(8)))
+					o[i].v = fmt.Sprintf("@%s^%d:%d", victim, g.altPos(8+last), 1<<uint(r.Intn(8)))
 				}
 			}
 		case 4: // altered key
@@ -276,7 +290,7 @@ func (g *gen) pyramidCase(multi bool) {
 		case 5: // short entry
 			o = append(o, pent{"h:" + core.Hex(r.Bytes(32)), "h:" + core.Hex(r.Bytes(r.Intn(8)))})
 		case 6: // duplicate key: bad first, good last (last wins) or the reverse
-			bad := pent{"#" + victim, fmt.Sprintf("@%s^%d:1", victim, r.Intn(8+last))}
+			bad := pent{"#" + victim, fmt.Sprintf("@%s^%d:1", victim, g.altPos(8+last))}
 			if r.Bool() {
 				o = append([]pent{bad}, o...)
 			} else {
@@ -339,10 +353,167 @@ func (g *gen) oversizeTreeCase(asLeaf bool) {
 	g.pyr("#f2", []pent{{"#f2", "@f2"}, {"#l0", "@l0"}, {"#m1", "@m1"}})
 }
 
+// adversarial multi-entry pyramids (added after seeded change C06-3, which verified only the entry
+// the map iteration visited last): an honest file tree (1 leaf = the root is the only reachable
+// entry; 2..3 leaves with full first leaves) padded with valid unreachable entries to n = 2..12
+// entries; then variants with exactly one (sometimes two) bad entries at a random position of the
+// entry list — the runner additionally rotates the insertion order over its trials, so every entry
+// is visited first, in the middle and last.
+func (g *gen) advPyramidCase(leaves int, n int) {
+	r := g.r
+	last := r.Pick([]int{1, 31, 32, 33, 100, 4096, r.Range(1, 3000)})
+	root, es, names := g.file(leaves, last)
+	if n < len(es) {
+		n = len(es)
+	}
+	if n < 2 {
+		n = 2
+	}
+	var pads []string
+	for i := 0; len(es)+len(pads) < n; i++ {
+		nm := fmt.Sprintf("x%d", i)
+		ln := r.Range(1, 200)
+		g.op("def %s s%d+g:%d:%d", nm, ln, r.Intn(1000), ln)
+		pads = append(pads, nm)
+	}
+	base := func() []pent {
+		o := append([]pent(nil), es...)
+		for _, nm := range pads {
+			o = append(o, pent{"#" + nm, "@" + nm})
+		}
+		for i := len(o) - 1; i > 0; i-- {
+			j := r.Intn(i + 1)
+			o[i], o[j] = o[j], o[i]
+		}
+		return o
+	}
+	lenOf := func(nm string) int {
+		switch {
+		case leaves == 1 && nm == "f":
+			return 8 + last
+		case nm == "f":
+			return 8 + 32*leaves
+		case nm == names[len(names)-1]:
+			return 8 + last
+		}
+		return 8 + C
+	}
+	set := func(o []pent, key, val string) {
+		for i := range o {
+			if o[i].k == key {
+				o[i].v = val
+			}
+		}
+	}
+	bit := func() int { return 1 << uint(r.Intn(8)) }
+	g.pyr("#"+root, base()) // honest tree + valid unreachable extras
+	k := r.Range(4, 7)
+	for j := 0; j < k; j++ {
+		o := base()
+		victim := names[r.Intn(len(names))]
+		switch r.Intn(10) {
+		case 0, 1, 2: // one payload byte of a reachable entry altered, key unchanged
+			set(o, "#"+victim, fmt.Sprintf("@%s^%d:%d", victim, r.Range(8, lenOf(victim)-1), bit()))
+		case 3: // one span byte of a reachable entry altered
+			set(o, "#"+victim, fmt.Sprintf("@%s^%d:%d", victim, r.Intn(3), bit())) // bytes 0..2: spans stay below 2^24 (a code change that lets such an entry through must not send the joiner into a 2^29-iteration read loop)
+		case 4: // intermediate root with two references swapped / one repeated (the walk still succeeds
+			// when both are full leaves); 1-leaf trees: root payload altered
+			if leaves >= 3 {
+				refs := []string{"#l0", "#l1", "#l2"}
+				if r.Bool() {
+					refs[0], refs[1] = refs[1], refs[0]
+				} else {
+					refs[r.Intn(2)] = refs[r.Intn(2)]
+					if refs[0] != refs[1] {
+						refs[1] = refs[0]
+					}
+				}
+				g.op("def fs s%d+%s", 2*C+last, strings.Join(refs, "+"))
+				set(o, "#f", "@fs")
+			} else {
+				set(o, "#f", fmt.Sprintf("@f^%d:%d", r.Range(8, lenOf("f")-1), bit()))
+			}
+		case 5: // an unreachable extra entry altered (never stored; the whole pyramid is refused)
+			if len(pads) > 0 {
+				x := pads[r.Intn(len(pads))]
+				set(o, "#"+x, fmt.Sprintf("@%s^%d:%d", x, r.Intn(9), bit()))
+			} else {
+				set(o, "#"+victim, "@"+victim+"/"+strconv.Itoa(lenOf(victim)-1))
+			}
+		case 6: // a valid chunk of the map under the address of a reachable one
+			other := names[r.Intn(len(names))]
+			if len(pads) > 0 && r.Chance(60) {
+				other = pads[r.Intn(len(pads))]
+			}
+			if other != victim {
+				set(o, "#"+victim, "@"+other)
+			} else {
+				set(o, "#"+victim, "@"+victim+"+h:"+core.Hex(r.Bytes(r.Range(1, 40))))
+			}
+		case 7: // truncated by one byte / extended by non-zero bytes
+			if r.Bool() {
+				set(o, "#"+victim, "@"+victim+"/"+strconv.Itoa(lenOf(victim)-1))
+			} else {
+				set(o, "#"+victim, "@"+victim+"+h:"+core.Hex(append(r.Bytes(r.Range(0, 8)), 1)))
+			}
+		case 8: // two bad entries: a reachable one and (if any) an extra
+			set(o, "#"+victim, fmt.Sprintf("@%s^%d:%d", victim, r.Range(8, lenOf(victim)-1), bit()))
+			if len(pads) > 0 {
+				x := pads[r.Intn(len(pads))]
+				set(o, "#"+x, fmt.Sprintf("@%s^%d:%d", x, r.Intn(9), bit()))
+			}
+		case 9: // an additional invalid entry under a random key, anywhere in the list
+			bad := pent{"h:" + core.Hex(r.Bytes(32)), "h:" + core.Hex(r.Bytes(r.Range(8, 60)))}
+			i := r.Intn(len(o) + 1)
+			o = append(o[:i], append([]pent{bad}, o[i:]...)...)
+		}
+		g.pyr("#"+root, o)
+	}
+}
+
+// C06-3 as fixed regression: the altered entry first / in the middle / last, 2..12 entries
+func (g *gen) alteredNotLastCase() {
+	g.op("def f s40+g:1:40")
+	g.op("def x0 s50+g:2:50")
+	g.op("def x1 s60+g:3:60")
+	g.pyr("#f", []pent{{"#f", "@f"}, {"#x0", "@x0"}})
+	g.pyr("#f", []pent{{"#f", "@f^20:1"}, {"#x0", "@x0"}})
+	g.pyr("#f", []pent{{"#x0", "@x0"}, {"#f", "@f^20:1"}})
+	g.pyr("#f", []pent{{"#f", "@f^47:128"}, {"#x0", "@x0"}, {"#x1", "@x1"}})
+	g.pyr("#f", []pent{{"#x0", "@x0^30:4"}, {"#f", "@f"}})
+	g.pyr("#f", []pent{{"#f", "@f"}, {"#x0", "@x1"}, {"#x1", "@x1"}})
+	// 12 entries, the altered root in the middle
+	es := []pent{}
+	for i := 2; i < 11; i++ {
+		g.op("def x%d s%d+g:%d:%d", i, 20+i, 10+i, 20+i)
+	}
+	for i := 0; i < 11; i++ {
+		if i == 5 {
+			es = append(es, pent{"#f", "@f^9:1"})
+		}
+		es = append(es, pent{fmt.Sprintf("#x%d", i), fmt.Sprintf("@x%d", i)})
+	}
+	g.pyr("#f", es)
+	// two leaves: altered full leaf in the middle, altered last leaf first, foreign chunk under a leaf address
+	g.op("def l0 s%d+p:7:%d:1000", C, C)
+	g.op("def l1 s77+g:8:77")
+	g.op("def ff s%d+#l0+#l1", C+77)
+	g.pyr("#ff", []pent{{"#ff", "@ff"}, {"#l0", "@l0"}, {"#l1", "@l1"}})
+	g.pyr("#ff", []pent{{"#ff", "@ff"}, {"#l0", "@l0^5000:1"}, {"#l1", "@l1"}})
+	g.pyr("#ff", []pent{{"#l1", "@l1^10:2"}, {"#ff", "@ff"}, {"#l0", "@l0"}})
+	g.pyr("#ff", []pent{{"#ff", "@ff"}, {"#l0", "@l0"}, {"#l1", "@x0"}, {"#x0", "@x0"}})
+	// three leaves: the intermediate chunk with its two full-leaf references swapped (walk succeeds)
+	g.op("def m1 s%d+p:9:%d:1000", C, C)
+	g.op("def g3 s%d+#l0+#m1+#l1", 2*C+77)
+	g.op("def g3s s%d+#m1+#l0+#l1", 2*C+77)
+	g.pyr("#g3", []pent{{"#g3", "@g3"}, {"#l0", "@l0"}, {"#m1", "@m1"}, {"#l1", "@l1"}})
+	g.pyr("#g3", []pent{{"#g3", "@g3s"}, {"#l0", "@l0"}, {"#m1", "@m1"}, {"#l1", "@l1"}})
+}
+
 func (prop) Gen(r *core.Rand, tier string) []core.Case {
-	nd, nbig, np, nmulti := 30, 2, 12, 3
+	nd, nbig, np, nmulti, nadv, nadvMulti := 30, 2, 12, 3, 10, 2
 	if tier == "thorough" {
-		nd, nbig, np, nmulti = 600, 20, 200, 30
+		nd, nbig, np, nmulti, nadv, nadvMulti = 600, 20, 200, 30, 150, 20
 	}
 	var cs []core.Case
 	mk := func(id string, nt bool, f func(g *gen)) {
@@ -354,6 +525,7 @@ func (prop) Gen(r *core.Rand, tier string) []core.Case {
 	mk("fix-oversize-root", true, func(g *gen) { g.oversizeTreeCase(false) })
 	mk("fix-oversize-leaf", true, func(g *gen) { g.oversizeTreeCase(true) })
 	mk("fix-oversize-delivery", true, func(g *gen) { g.oversizeDelivery() })
+	mk("fix-pyramid-altered-not-last", true, func(g *gen) { g.alteredNotLastCase() })
 	mk("fix-basic", true, func(g *gen) {
 		g.op("deliver 1 1")
 		g.op("new h:666f6f")
@@ -416,6 +588,12 @@ func (prop) Gen(r *core.Rand, tier string) []core.Case {
 			}
 			g.pyramidCase(m)
 		})
+	}
+	for i := 0; i < nadv; i++ {
+		mk(fmt.Sprintf("a%d", i), true, func(g *gen) { g.advPyramidCase(1, 2+(i+r.Intn(3))%11) })
+	}
+	for i := 0; i < nadvMulti; i++ {
+		mk(fmt.Sprintf("am%d", i), true, func(g *gen) { g.advPyramidCase(2+i%2, r.Range(3, 12)) })
 	}
 	return cs
 }
@@ -840,57 +1018,101 @@ func (rn *runner) pyr(ctx *core.Ctx, op []string) string {
 		}
 		ents = append(ents, kv{k, v})
 	}
-	// the map exactly as chunkinfo.onChunkPyramidResp builds it from the peer's responses
-	pyramid := make(map[string][]byte)
+	// the map content exactly as chunkinfo.onChunkPyramidResp builds it from the peer's responses
+	// (NewAddress(hash).String() keys, later responses win)
 	raw := map[string][]byte{}
+	var order [][]byte // distinct keys, first occurrence first
 	for _, e := range ents {
-		pyramid[boson.NewAddress(e.k).String()] = e.v
+		if _, dup := raw[string(e.k)]; !dup {
+			order = append(order, e.k)
+		}
 		raw[string(e.k)] = e.v
 	}
-	st := &fakeStore{}
-	type res struct{ err error }
-	done := make(chan res, 1)
-	go func() {
-		_, _, err := traversal.New(st).GetChunkHashes(context.Background(), boson.NewAddress(root), pyramid)
-		done <- res{err}
-	}()
-	var err error
-	select {
-	case r := <-done:
-		err = r.err
-	case <-time.After(60 * time.Second):
-		ctx.Fail("pyramid-hang", "GetChunkHashes did not return")
-		return "hang"
-	}
 	reach := reachable(root, raw)
-	for _, p := range st.puts {
-		want, ok := raw[string(p.addr)]
-		if !ok || !bytes.Equal(want, p.data) {
-			ctx.Fail("pyramid-stored-not-in-map", "Put of %x is not an entry of the pyramid", p.addr)
+	// GetChunkHashes ranges over the map, and Go's map order differs from one range statement to the
+	// next (maps of <= 8 entries: a rotation of the insertion order starting at a random slot; the entry
+	// inserted last is visited last 7 times out of 8 in a 2-entry map).  Whether an entry is visited
+	// first or last must not matter, so the same pyramid is submitted pyrTrials times, each time as a
+	// freshly built map whose insertion order is rotated by one more entry, into a fresh store; every
+	// trial is judged by the oracle and all trials must give the same answer.
+	trials := pyrTrials
+	if len(order) <= 1 {
+		trials = 2
+	}
+	failed := map[string]bool{}
+	fail := func(clause, format string, a ...interface{}) {
+		msg := fmt.Sprintf(format, a...)
+		if !failed[clause+msg] {
+			failed[clause+msg] = true
+			ctx.Fail(clause, "%s", msg)
 		}
-		if !refimpl.CacValid(p.addr, p.data) {
-			clause := "pyramid-stored-invalid"
-			if len(p.data) > C+8 {
-				clause += "-oversize"
+	}
+	var outcomes []string
+	seenOut := map[string]bool{}
+	for t := 0; t < trials; t++ {
+		pyramid := make(map[string][]byte)
+		for i := range order {
+			k := order[(i+t)%len(order)]
+			pyramid[boson.NewAddress(k).String()] = raw[string(k)]
+		}
+		st := &fakeStore{}
+		type res struct{ err error }
+		done := make(chan res, 1)
+		go func() {
+			_, _, err := traversal.New(st).GetChunkHashes(context.Background(), boson.NewAddress(root), pyramid)
+			done <- res{err}
+		}()
+		var err error
+		select {
+		case r := <-done:
+			err = r.err
+		case <-time.After(60 * time.Second):
+			ctx.Fail("pyramid-hang", "GetChunkHashes did not return")
+			return "hang"
+		}
+		st.mu.Lock()
+		puts := append([]put(nil), st.puts...)
+		st.mu.Unlock()
+		for _, p := range puts {
+			want, ok := raw[string(p.addr)]
+			if !ok || !bytes.Equal(want, p.data) {
+				fail("pyramid-stored-not-in-map", "Put of %x is not an entry of the pyramid", p.addr)
 			}
-			ctx.Fail(clause, "stored %d bytes under %x: not a valid content-addressed chunk", len(p.data), p.addr)
+			if !refimpl.CacValid(p.addr, p.data) {
+				clause := "pyramid-stored-invalid"
+				if len(p.data) > C+8 {
+					clause += "-oversize"
+				}
+				fail(clause, "stored %d bytes under %x: not a valid content-addressed chunk", len(p.data), p.addr)
+			}
+			if !reach[string(p.addr)] {
+				fail("pyramid-stored-unreachable", "stored %x is not reachable from the root", p.addr)
+			}
 		}
-		if !reach[string(p.addr)] {
-			ctx.Fail("pyramid-stored-unreachable", "stored %x is not reachable from the root", p.addr)
+		out := "err"
+		if err != nil {
+			if len(puts) > 0 {
+				fail("pyramid-stored-despite-error", "%d puts although GetChunkHashes failed: %v", len(puts), err)
+			}
+		} else {
+			var l []string
+			for _, p := range puts {
+				l = append(l, entryStr(p.addr, p.data))
+			}
+			sort.Strings(l)
+			out = "ok " + strings.Join(l, " ")
+		}
+		if !seenOut[out] {
+			seenOut[out] = true
+			outcomes = append(outcomes, out)
 		}
 	}
-	if err != nil {
-		if len(st.puts) > 0 {
-			ctx.Fail("pyramid-stored-despite-error", "%d puts although GetChunkHashes failed: %v", len(st.puts), err)
-		}
-		return "err"
+	if len(outcomes) == 1 {
+		return outcomes[0]
 	}
-	var l []string
-	for _, p := range st.puts {
-		l = append(l, entryStr(p.addr, p.data))
-	}
-	sort.Strings(l)
-	return "ok " + strings.Join(l, " ")
+	// the answer depends on the order in which the map happened to be visited
+	sort.Strings(outcomes)
+	return "unstable [" + strings.Join(outcomes, "] [") + "]"
 }
 
 func (rn *runner) Step(ctx *core.Ctx, op []string) string {
